@@ -44,6 +44,9 @@ def check_header(rep, R, enc, expect_prefix, where):
         rep.inconc(R, "header: %s" % enc.header_unknown)
         return
     if len(hb) < len(want):
+        if not hb or getattr(enc, "header_unknown", None):
+            rep.inconc(R, "%s: header bytes not recognised (%s)" % (enc.body.name.rsplit("::", 2)[-2], getattr(enc, "header_unknown", None) or "none found"))
+            return
         rep.violation(R, enc.body.name, "header-length", "header has %d byte(s), specified %d" % (len(hb), len(want)), where)
         return
     for i, w in enumerate(want):
@@ -444,6 +447,12 @@ def token_checks(rep, R2, R4, enc, forms, where, flag_shift=7):
                 if x[0] == "bin" and x[1] == "Shr" and x[2][0] == "const" and x[2][1] == (1 << flag_shift) and (strip_casts_(x[3]) == cnt or strip_casts_(x[3])[:2] == ("const", 0)):
                     good = True      # 0x80 >> k  ==  1 << (7 - k)
                 if x[0] == "bin" and x[1] == "Shl" and x[2][0] == "const" and x[2][1] == 1:
+                    from binser import affine as _aff2
+                    a_sh = _aff2(x[3], None)
+                    if a_sh is not None and a_sh[1] == flag_shift and len(a_sh[0]) == 1 and list(a_sh[0].values()) == [-1] and norm(strip_casts_(list(a_sh[0])[0])) == norm(strip_casts_(cnt)):
+                        good = True      # (8 - 1) - k and the like
+                    if a_sh is not None and not a_sh[0] and a_sh[1] == flag_shift:
+                        good = True      # ... on a path where the counter is known to be 0
                     sh = x[3]
                     if sh[0] == "field":
                         sh = ("bin", sh[1][1].replace("WithOverflow", ""), sh[1][2], sh[1][3])
@@ -468,6 +477,10 @@ def token_checks(rep, R2, R4, enc, forms, where, flag_shift=7):
                 rep.inconc(R2, "token bytes: %s" % e)
                 continue
             seen_forms[key] = got
+    if not thresholds or not (adv["lit"] or adv["ref"]):
+        # no trip round the main loop could be told apart as literal or reference step: nothing below is a fact
+        rep.inconc(R2, "%s: the literal / reference decision of the main loop was not recognised" % enc.body.name.rsplit("::", 2)[-2])
+        return thresholds
     if unknown_emission:
         rep.inconc(R2, "%s: token emission not recognised: %s" % (enc.body.name.rsplit("::", 2)[-2], unknown_emission))
         # what does not depend on how the bytes are stored: one literal step consumes one input byte per token it counts
